@@ -200,7 +200,9 @@ macro_rules! direct_checks {
             let f = op.bin().map_err(|e| fail("C19/missing", format!("{name}: {}", e.msg()), json!({})))?.apply;
             let got = f(a, b);
             let want = $ref_bin(name).unwrap()(a, b);
-            if !$same(got, want) {
+            // `min`/`max` of two zeros: the Rust primitive may return either input (std documentation)
+            let either_zero = (name == "min" || name == "max") && a == 0.0 && b == 0.0 && got == 0.0;
+            if !$same(got, want) && !either_zero {
                 return Err(fail(
                     &format!("C19/{}/binary/{name}", $ty),
                     format!("{}: {a:?} {name} {b:?} = {got:?}, the Rust primitive gives {want:?} (argument order as documented)", $ty),
@@ -357,16 +359,23 @@ fn parsed(tape: &[u32], st: &mut Stats) -> CaseResult {
         if a.to_bits() != b.to_bits() && st.nontrivial(&format!("{text}{}{}", a.to_bits(), b.to_bits())) && st.want_sample() {
             st.sample(json!({"text": text, "x": format!("{a:?}"), "y": format!("{b:?}")}));
         }
+        // `min`/`max` of two zeros: the Rust primitive may return either input (std documentation)
+        let two_zeros = (name == "min" || name == "max") && a == 0.0 && b == 0.0;
         let f = guard(|| ex_msg(ex_msg(exmex::FlatEx::<f64>::parse(&text))?.eval(&[a, b]))).unwrap_or_else(|p| Err(format!("panic {p}")));
-        same_res("binary/flat", &text, f, want, &[a, b])?;
+        if !(two_zeros && f == Ok(0.0)) {
+            same_res("binary/flat", &text, f, want, &[a, b])?;
+        }
         let d = guard(|| ex_msg(ex_msg(DeepEx::<f64>::parse(&text))?.eval(&[a, b]))).unwrap_or_else(|p| Err(format!("panic {p}")));
-        same_res("binary/deep", &text, d, want, &[a, b])?;
+        if !(two_zeros && d == Ok(0.0)) {
+            same_res("binary/deep", &text, d, want, &[a, b])?;
+        }
         // f32
         let (c, e) = (gen32(&mut t), gen32(&mut t));
         let want32 = ref_bin32(name).unwrap()(c, e);
         let g = guard(|| ex_msg(ex_msg(exmex::parse::<f32>(&text))?.eval(&[c, e]))).unwrap_or_else(|p| Err(format!("panic {p}")));
         match g {
             Ok(v) if same32(v, want32) => Ok(()),
+            Ok(v) if (name == "min" || name == "max") && c == 0.0 && e == 0.0 && v == 0.0 => Ok(()),
             other => Err(fail("C19/parsed/binary/f32", format!("`{text}` at ({c:?}, {e:?}) = {other:?}, expected {want32:?}"), json!({"text": text}))),
         }
     }
